@@ -188,6 +188,51 @@ func init() {
 			return ws
 		}
 	}
+	// url.Values.Set / Del (documented behaviour: v[key] = []string{value};
+	// delete(v, key)) - plain map operations on map[string][]string
+	valuesWS := func(fc *FnCtx, c ssa.CallInstruction) *WriteSet {
+		ws := newWS()
+		ws.add("alloc")
+		mt := types.NewMap(types.Typ[types.String], types.NewSlice(types.Typ[types.String]))
+		d, v, l := fc.mapVars(mt)
+		ws.add(d)
+		ws.add(v)
+		ws.add(l)
+		n := fc.memVar(types.Typ[types.String])
+		ws.add(n)
+		ws.Fresh[n] = true
+		return ws
+	}
+	for _, k := range []string{"url.Values.Set", "net/url.Values.Set"} {
+		libWriteSets[k] = valuesWS
+		libModels[k] = func(fc *FnCtx, s *CallSite) bool {
+			if s.recv == nil || len(s.args) != 2 {
+				return false
+			}
+			mt := types.NewMap(types.Typ[types.String], types.NewSlice(types.Typ[types.String]))
+			r := fc.newRef()
+			mem := fc.memVar(types.Typ[types.String])
+			row := Term{fmt.Sprintf("(store ((as const %s) \"\") 0 %s)", ArraySort(SInt, SString), s.args[1].S), ArraySort(SInt, SString)}
+			fc.assign(mem, Store(fc.lookup(mem), r, row))
+			fc.mapStore(mt, *s.recv, s.args[0], T(SSlice, "(mkslice %s 0 1 1)", r.S))
+			fc.assumeNote("url.Values.Set(k, v) is v[k] = []string{v}; url.Values.Del(k) is delete(v, k) (documented behaviour of net/url)")
+			s.results = nil
+			return true
+		}
+	}
+	for _, k := range []string{"url.Values.Del", "net/url.Values.Del"} {
+		libWriteSets[k] = valuesWS
+		libModels[k] = func(fc *FnCtx, s *CallSite) bool {
+			if s.recv == nil || len(s.args) != 1 {
+				return false
+			}
+			mt := types.NewMap(types.Typ[types.String], types.NewSlice(types.Typ[types.String]))
+			fc.mapDelete(mt, *s.recv, s.args[0])
+			fc.assumeNote("url.Values.Set(k, v) is v[k] = []string{v}; url.Values.Del(k) is delete(v, k) (documented behaviour of net/url)")
+			s.results = nil
+			return true
+		}
+	}
 	libWriteSets["sort.Sort"] = sortWrites
 	libWriteSets["sort.Stable"] = sortWrites
 	libModels["sort.Sort"] = modelSortSort
@@ -756,6 +801,9 @@ func modelSortSlice(fc *FnCtx, s *CallSite) bool {
 			res := Term{"sless!", SBool}
 			bind["result"] = specVal{t: res, ty: tBool}
 			sc := fc.calleeScope(ct, lessFn, fc.env, fc.env, bind)
+			// si!/sj! are bound by the quantifier built below: facts about
+			// terms that mention them must not be emitted outside it
+			sc.bound = append(sc.bound, map[string]specVal{})
 			var posts []Term
 			for _, en := range ct.Ensures {
 				posts = append(posts, sc.trBool(en.E))
